@@ -35,17 +35,28 @@ Proof. intros id ext. destruct ext; tie. Qed.
 Theorem tie_destination : forall id ext, gen_j1939_destination ext id = j1939_destination (id, ext).
 Proof. intros id ext. destruct ext; tie. Qed.
 
-Theorem tie_setters : forall id ext v,
-  gen_set_pgn ext id v = Some (set_pgn (id, ext) v) /\
-  gen_set_source ext id v = Some (set_source (id, ext) v) /\
-  gen_set_priority ext id v = Some (set_priority (id, ext) v).
-Proof. intros id ext v. repeat split; tie. Qed.
+(* stated over the property's quantifier: a setter is handed a value of its field (18-bit PGN, 8-bit source address, 3-bit
+   priority), a compound integer is a 32-bit number, from_pgn gets an 18-bit PGN, identifiers are 29-bit numbers; what the
+   functions do with other numbers (truncate, refuse) is not constrained by C09 and is no obligation of the tie *)
+Theorem tie_setters : forall id ext v, 0 <= id < 2 ^ 29 ->
+  (0 <= v < 2 ^ 18 -> gen_set_pgn ext id v = Some (set_pgn (id, ext) v)) /\
+  (0 <= v < 2 ^ 8 -> gen_set_source ext id v = Some (set_source (id, ext) v)) /\
+  (0 <= v < 2 ^ 3 -> gen_set_priority ext id v = Some (set_priority (id, ext) v)).
+Proof.
+  intros id ext v Hid. change (2 ^ 29) with 536870912 in Hid.
+  change (2 ^ 18) with 262144. change (2 ^ 8) with 256. change (2 ^ 3) with 8.
+  repeat split; intros Hv; tie.
+Qed.
 
-Theorem tie_compound : forall id ext i p,
+Theorem tie_compound : forall id ext i p, 0 <= id < 2 ^ 29 -> 0 <= i < 2 ^ 32 -> 0 <= p < 2 ^ 18 ->
   gen_to_compound_integer ext id = Some (to_compound_integer (id, ext)) /\
   gen_from_compound_integer i = from_compound_integer i /\
   gen_from_pgn p = from_pgn p.
-Proof. intros id ext i p. repeat split; [destruct ext; tie | tie | tie]. Qed.
+Proof.
+  intros id ext i p Hid Hi Hp.
+  change (2 ^ 29) with 536870912 in Hid. change (2 ^ 32) with 4294967296 in Hi. change (2 ^ 18) with 262144 in Hp.
+  repeat split; [destruct ext; tie | tie | tie].
+Qed.
 Print Assumptions tie_post_init.
 Print Assumptions tie_getters.
 Print Assumptions tie_pgn.
